@@ -478,4 +478,117 @@ def ClientsAgree (c : Clients) (defaults : List (Str × Str)) (ua caseIdHeader :
     ∧ (∀ kv ∈ defaults, sameName kv.1 userAgent = true → kv.1 = userAgent)
     ∧ sameName c.caseIdHeader caseIdHeader = true
 
+/-! ### (f) output sanitization enabled: "only the redacted values may differ"
+
+  The command is judged against the original request as before, except that a header value or the value of a query
+  parameter may be shown as the replacement text (in one of its spellings: literal, percent-encoded) instead of the
+  original value.  Method, the URL up to its query values, the body, the names of all fields and every value that is
+  not shown as the replacement must be those of the original. -/
+
+/-- a value in the sanitized command against the original's: the same, or one of the spellings of the replacement -/
+def valueRedacted (markers : List Str) (orig shown : Str) : Bool := orig == shown || markers.contains shown
+
+/-- split at every occurrence of `c` -/
+def splitAll (c : Char) : Str → List Str
+  | [] => [[]]
+  | x :: xs =>
+    if x = c then [] :: splitAll c xs
+    else match splitAll c xs with
+      | [] => [[x]]
+      | w :: ws => (x :: w) :: ws
+
+def pairOf (s : Str) : Str × Str :=
+  match splitFirst '=' s with
+  | some kv => kv
+  | none => (s, [])
+
+/-- (what precedes the first '?', the query) -/
+def splitQuery (u : Str) : Str × Option Str :=
+  match splitFirst '?' u with
+  | some (b, q) => (b, some q)
+  | none => (u, none)
+
+/-! query strings are compared as a form decoder reads them (`%XX`, '+'): re-encoding a parameter is not a difference -/
+
+def hexVal (c : Char) : Option Nat :=
+  if '0' ≤ c ∧ c ≤ '9' then some (c.toNat - 48)
+  else if 'a' ≤ c ∧ c ≤ 'f' then some (c.toNat - 87)
+  else if 'A' ≤ c ∧ c ≤ 'F' then some (c.toNat - 55)
+  else none
+
+inductive PMode | lit | p1 | p2 (a : Char)
+
+def litStep (c : Char) : List Nat × PMode :=
+  if c = '+' then ([32], .lit) else if c = '%' then ([], .p1) else (utf8Enc c, .lit)
+
+/-- `urllib.parse.unquote_to_bytes(s.replace("+", " "))`: an incomplete or non-hex escape stays literal -/
+def formGo : PMode → Str → List Nat
+  | .lit, [] => []
+  | .p1, [] => [37]
+  | .p2 a, [] => 37 :: utf8Enc a
+  | .lit, c :: r => (litStep c).1 ++ formGo (litStep c).2 r
+  | .p1, c :: r => if (hexVal c).isSome then formGo (.p2 c) r else 37 :: ((litStep c).1 ++ formGo (litStep c).2 r)
+  | .p2 a, c :: r =>
+    match hexVal a, hexVal c with
+    | some x, some y => (16 * x + y) :: formGo .lit r
+    | _, _ => 37 :: (utf8Enc a ++ ((litStep c).1 ++ formGo (litStep c).2 r))
+
+def formDecode (s : Str) : List Nat := formGo .lit s
+
+/-- a query value in the sanitized command against the original's: the same once decoded, or the replacement text -/
+def queryValueRedacted (markers : List Str) (orig shown : Str) : Bool :=
+  formDecode orig == formDecode shown || markers.any fun m => formDecode shown == utf8Encode m
+
+/-- parameter by parameter, in order; names compared decoded -/
+def queryPairsRedacted (markers : List Str) : List (Str × Str) → List (Str × Str) → Bool
+  | [], [] => true
+  | (k, v) :: ps, (k', v') :: ss =>
+    formDecode k == formDecode k' && queryValueRedacted markers v v' && queryPairsRedacted markers ps ss
+  | _, _ => false
+
+/-- the parameters of a query string (`parse_qsl(keep_blank_values=True)`: empty segments dropped, no '=' is a blank value) -/
+def queryParams (q : Str) : List (Str × Str) := ((splitAll '&' q).filter fun seg => !seg.isEmpty).map pairOf
+
+def queryRedacted (markers : List Str) : Option Str → Option Str → Bool
+  | none, none => true
+  | some p, some s => queryPairsRedacted markers (queryParams p) (queryParams s)
+  | some p, none => (queryParams p).isEmpty
+  | none, some s => (queryParams s).isEmpty
+
+/-- the fragment (from the first '#'; no client sends it) -/
+def urlFragment (u : Str) : Option Str := (splitFirst '#' u).map (·.2)
+
+def dropFragment (u : Str) : Str :=
+  match splitFirst '#' u with
+  | some (a, _) => a
+  | none => u
+
+/-- scheme, authority and path -/
+def urlBase (u : Str) : Str := (splitQuery (dropFragment u)).1
+
+def urlQuery (u : Str) : Option Str := (splitQuery (dropFragment u)).2
+
+/-- the URL up to redacted query values -/
+def urlRedacted (markers : List Str) (orig shown : Str) : Bool :=
+  urlBase orig == urlBase shown && urlFragment orig == urlFragment shown
+    && queryRedacted markers (urlQuery orig) (urlQuery shown)
+
+def fieldRedacted (markers : List Str) (o s : Str × Str) : Bool := o.1 == s.1 && valueRedacted markers o.2 s.2
+
+/-- `headersOk` up to redacted values: nothing invented, nothing but automatic fields missing -/
+def headersOkRedacted (markers : List Str) (auto : Table) (orig sent : List (Str × Str)) : Bool :=
+  (sent.all fun kv => orig.any fun o => fieldRedacted markers o kv)
+    && orig.all fun o => isAuto auto o || sent.any fun kv => fieldRedacted markers o kv
+
+def sameRequestRedacted (markers : List Str) (auto : Table) (o : Original) : CurlResult → Bool
+  | .request m u hs b k => m == o.method && urlRedacted markers o.url u && bodyOf b == bodyOf o.body && k == !o.verify
+      && headersOkRedacted markers auto o.headers hs
+  | _ => false
+
+/-- the property with sanitization enabled -/
+def reproducesRedacted (markers : List Str) (auto : Table) (o : Original) (cmd : Str) : Bool :=
+  match shParse cmd with
+  | some argv => sameRequestRedacted markers auto o (curlSem argv)
+  | none => false
+
 end SV.Spec.C09
